@@ -26,6 +26,7 @@ ASSUMPTIONS = ["no write faults are injected here (C02/C07 do that)",
                "order"]
 REQUIRED_OBS = ["frames_attributed", "queued_while_down_then_sent", "multi_pending_outages",
                 "sent_while_connected", "packet_id_wraps"]
+SOAK = True   # also judged by the whole-run monitors of the soak sessions (vf/soak.py)
 BUDGET = {"quick": 100, "thorough": 1500}
 
 EPS = 1e-6
